@@ -118,3 +118,260 @@ def propose_add_native(vc):
     vc.ensures("proposals_inside_search_bounds", bool(ok_in))
     vc.ensures("added_evaluation_becomes_data_and_updates_incumbent", bool(ok_data))
     vc.ensures("caller_arrays_not_modified", bool(ok_args) and x_in.shape == shape_before and np.array_equal(x_in, x_before))
+
+
+# ================================================================================================
+# proof layer
+# ================================================================================================
+import z3
+from pyvc import sym as S
+from pyvc.sym import Sym, Unsupported
+from pyvc.tensor import Tensor, SymList
+from pyvc.diff import derivative
+
+ACQ = "inference.gp.acquisition"
+
+
+class GpGhost:
+    """the regressor as seen by an acquisition function: predictive mean mu(x), standard deviation sig(x) > 0 and the
+    spatial derivatives of the mean and of the VARIANCE (the contract of GpRegressor.spatial_derivatives, C16)"""
+
+    def __init__(self, vc, d):
+        self.vc, self.d = vc, d
+        self.mu = vc.real("mu")
+        self.sig = vc.real("sig", pos=True)
+        self.dmu = vc.vector("dmu", d)
+        self.dvar = vc.vector("dvar", d)
+        self.y_max = vc.real("y_max")
+        self.calls = []
+
+    def get_attr(self, I, name):
+        return getattr(self, name)
+
+    def __call__(self, x):
+        self.calls.append(x)
+        return Tensor((1,), lambda i: self.mu), Tensor((1,), lambda i: self.sig)
+
+    def spatial_derivatives(self, x):
+        self.calls.append(x)
+        return self.dmu, self.dvar
+
+    def d_dx(self, c):
+        """d/dx_c of an expression in mu and sig:  d mu = dmu_c,  d sig = dvar_c / (2 sig)"""
+        mu, sig = S.z(self.mu), S.z(self.sig)
+        dm, dv = S.z(self.dmu.at(c)), S.z(self.dvar.at(c))
+
+        def dleaf(e):
+            if e.eq(mu):
+                return dm
+            if e.eq(sig):
+                return dv / (2 * sig)
+            return None
+        return dleaf
+
+
+def _ei_closed_form(vc, g):
+    """E[max(f - y_max, 0)], f ~ N(mu, sig^2)  =  sig (z Phi(z) + phi(z)),  z = (mu - y_max)/sig   (textbook identity, assumed)"""
+    from pyvc import npmodel as N
+    z_ = S.div(S.sub(g.mu, g.y_max), g.sig)
+    phi = S.mul(vc.exp(S.mul(S.div(-1, 2), S.mul(z_, z_))), S.div(1, vc.sqrt(S.mul(2, vc.pi))))
+    Phi = S.mul(S.div(1, 2), S.add(1, N.sp_erf(S.mul(z_, S.div(1, vc.sqrt(2))))))
+    return z_, phi, Phi, S.mul(g.sig, S.add(S.mul(z_, Phi), phi))
+
+
+@contract("C18", "expected_improvement", native=False, replay_with="acquisition_native")
+def expected_improvement(vc):
+    vc.c.numeric_filter = "float"     # arguments that clearly differ numerically are not sent to the solver for merging
+    vc.c.exact_surds = True           # sqrt(2), sqrt(pi) ... as exact surds; exp(a+b) = exp(a) exp(b) instances
+
+    d = vc.choice("d", [1, 2])
+    g = GpGhost(vc, d)
+    x = vc.vector("x", d)
+    acq = vc.new(ACQ, "ExpectedImprovement")
+    vc.setattr(acq, "gp", g)
+    vc.setattr(acq, "mu_max", g.y_max)
+    z_, phi, Phi, ei = _ei_closed_form(vc, g)
+    far = vc.choice("branch", ["ordinary", "far_tail"])
+    vc.assume(S.cmp("<", z_, -3) if far == "far_tail" else S.cmp(">=", z_, -3))
+    vc.assume_lemma("expected improvement is positive: z Phi(z) + phi(z) > 0 (Mills-ratio bound)",
+                    S.cmp(">", S.add(S.mul(z_, Phi), phi), 0))
+    val = vc.call(acq, "__call__", x)
+    vc.ensures("value_is_expected_improvement", S.cmp("==", val, ei))
+    obj = vc.call(acq, "opt_func", x)
+    # modular step for the gradient: the special functions are replaced by their contracts -- functions with the
+    # derivatives  mills' = z mills + 1,  npdf' = -z npdf,  ncdf' = npdf  -- which the contract mills_ratio proves for the
+    # real bodies; the value obligations use the real bodies, and the objective returned here is compared with opt_func
+    # after substituting the real bodies back
+    ghosts = {"cdf_pdf_ratio": "mills", "normal_pdf": "npdf", "normal_cdf": "ncdf"}
+    for meth, fn in ghosts.items():
+        vc.modular("ExpectedImprovement." + meth, (lambda fn_: lambda I, func, args, kwargs: Sym(S.uf(fn_, args[1])))(fn))
+    if far == "far_tail":
+        vc.assume_lemma("1 + z Phi(z)/phi(z) > 0 (Mills-ratio bound, the same fact as EI > 0)",
+                        S.cmp(">", S.add(1, S.mul(z_, Sym(S.uf("mills", z_)))), 0))
+    else:
+        vc.assume_lemma("z Phi(z) + phi(z) > 0 for the ghost functions",
+                        S.cmp(">", S.add(S.mul(z_, Sym(S.uf("ncdf", z_))), Sym(S.uf("npdf", z_))), 0))
+    obj2, grad = vc.call(acq, "opt_func_gradient", x)
+    for meth in ghosts:
+        vc.I.call_contracts.pop("ExpectedImprovement." + meth, None)
+    obj2 = obj2.at() if isinstance(obj2, Tensor) else obj2
+    back = [(S.uf(fn, z_), S.z(vc.call(acq, meth, z_))) for meth, fn in ghosts.items()]
+    vc.ensures("value_and_gradient_form_returns_the_same_objective",
+               S.cmp("==", S.wrap(z3.substitute(S.z(obj2), *back)), obj))
+    for c in range(d):
+        gc = grad.at(c) if isinstance(grad, Tensor) and grad.ndim == 1 else (grad.at() if isinstance(grad, Tensor) else grad)
+        vc.ensures("gradient_is_true_spatial_gradient", S.cmp("==", gc, derivative(obj2, g.d_dx(c))))
+    if far == "far_tail":
+        # lemma chain for the logarithmic form: z Phi + phi = phi (1 + z Phi/phi) with Phi/phi = sqrt(pi/2) erfcx(-z/sqrt 2)
+        from pyvc import npmodel as N
+        H = S.add(1, S.mul(z_, S.mul(vc.attr(acq, "rpi2"), N.sp_erfcx(S.mul(S.sub(0, z_), vc.attr(acq, "ir2"))))))
+        vc.lemma("far_tail.mills_ratio_form", S.cmp("==", S.add(S.mul(z_, Phi), phi), S.mul(phi, H)))
+        whole = N._uf1("log", S.mul(phi, H), N._log_ax)         # log(phi H) with its product law as an axiom instance
+        vc.lemma("far_tail.log_of_the_product", S.cmp("==", vc.log(S.add(S.mul(z_, Phi), phi)), whole))
+        vc.lemma("far_tail.log_splits", S.cmp("==", whole, S.add(vc.log(phi), vc.log(H))))
+    vc.ensures("objective_is_minus_log_expected_improvement", S.cmp("==", obj, S.sub(0, vc.log(ei))))
+    vc.ensures("regressor_queried_at_the_point", all(q is x for q in g.calls) and len(g.calls) >= 4)
+
+
+@contract("C18", "confidence_bound_and_variance", native=False, replay_with="acquisition_native")
+def confidence_bound_and_variance(vc):
+    d = vc.choice("d", [1, 2, 3])
+    which = vc.choice("acquisition", ["UpperConfidenceBound", "MaxVariance"])
+    g = GpGhost(vc, d)
+    x = vc.vector("x", d)
+    if which == "UpperConfidenceBound":
+        kappa = vc.real("kappa", lo=0)
+        acq = vc.new(ACQ, which, kappa)
+        want = S.add(g.mu, S.mul(kappa, g.sig))
+    else:
+        acq = vc.new(ACQ, which)
+        want = S.mul(g.sig, g.sig)
+    vc.setattr(acq, "gp", g)
+    vc.setattr(acq, "mu_max", g.y_max)
+    vc.ensures("value_is_the_definition", S.cmp("==", vc.call(acq, "__call__", x), want))
+    vc.ensures("objective_is_minus_the_value", S.cmp("==", vc.call(acq, "opt_func", x), S.sub(0, want)))
+    obj2, grad = vc.call(acq, "opt_func_gradient", x)
+    obj2 = obj2.at(*([0] * obj2.ndim)) if isinstance(obj2, Tensor) else obj2
+    vc.ensures("value_and_gradient_form_returns_the_same_objective", S.cmp("==", obj2, S.sub(0, want)))
+    for c in range(d):
+        gc = grad.at(c) if isinstance(grad, Tensor) and grad.ndim == 1 else (grad.at() if isinstance(grad, Tensor) else grad)
+        vc.ensures("gradient_is_true_spatial_gradient", S.cmp("==", gc, derivative(S.sub(0, want), g.d_dx(c))))
+
+
+@contract("C18", "mills_ratio", native=False, replay_with="acquisition_native")
+def mills_ratio(vc):
+    """cdf_pdf_ratio(z) = sqrt(pi/2) erfcx(-z/sqrt 2) has derivative z ratio(z) + 1 (the defining ODE of Phi/phi), and
+    ln_pdf / normal_pdf / normal_cdf are the standard normal log-density, density and distribution function"""
+    vc.c.exact_surds = True
+    acq = vc.new(ACQ, "ExpectedImprovement")
+    zv = vc.real("z")
+    R = vc.call(acq, "cdf_pdf_ratio", zv)
+
+    def dz(e):
+        return z3.RealVal(1) if e.eq(S.z(zv)) else None
+    vc.ensures("ratio_satisfies_mills_equation", S.cmp("==", derivative(R, dz), S.add(S.mul(zv, R), 1)))
+    pdf = vc.call(acq, "normal_pdf", zv)
+    cdf = vc.call(acq, "normal_cdf", zv)
+    vc.ensures("density_derivative", S.cmp("==", derivative(pdf, dz), S.mul(S.sub(0, zv), pdf)))
+    vc.ensures("distribution_derivative_is_density", S.cmp("==", derivative(cdf, dz), pdf))
+    vc.ensures("log_density", S.cmp("==", vc.call(acq, "ln_pdf", zv), vc.log(pdf)))
+    vc.ensures("ratio_is_cdf_over_pdf", S.cmp("==", S.mul(R, pdf), cdf))
+
+
+OPT = "inference.gp.optimisation"
+
+
+@contract("C18", "add_evaluation", native=False, replay_with="propose_add_native")
+def add_evaluation(vc):
+    """add_evaluation(new_x, new_y, new_y_err): the data set becomes the old rows followed by the new point, the regressor
+    is rebuilt from exactly that data set, the acquisition function is handed the new regressor, one entry is added to each
+    history, and no array of the caller is written"""
+    n, d = vc.int("n", lo=1), vc.choice("d", [1, 2, 3])
+    x = vc.matrix("x", n, d, origin="state")
+    y = vc.vector("y", n, origin="state")
+    has_err = vc.choice("errors", [True, False])
+    y_err = vc.vector("y_err", n, origin="state") if has_err else None
+    new_x = vc.vector("new_x", d, origin="input")
+    new_y = vc.real("new_y")
+    new_err = vc.real("new_y_err", pos=True) if has_err else None
+    built = []
+
+    def gp_init(I, func, args, kwargs):
+        self_ = args[0]
+        built.append(dict(kwargs))
+        for k, v in kwargs.items():
+            I.set_attr(self_, k, v)
+        return None
+
+    vc.modular("GpRegressor.__init__", gp_init)
+
+    class Acq:
+        def __init__(self):
+            self.updated, self.asked = [], []
+
+        def get_attr(self, I, name):
+            return getattr(self, name)
+
+        def __call__(self, pt):
+            self.asked.append(pt)
+            return vc.fresh_real("acq_value")
+
+        def convergence_metric(self, pt):
+            self.asked.append(pt)
+            return vc.fresh_real("metric")
+
+        def update_gp(self, gp):
+            self.updated.append(gp)
+
+    acq = Acq()
+    h1 = SymList(vc.fresh_int("h", 0), lambda i: Sym(S.uf("hist1", i)))
+    h2 = SymList(h1.length(), lambda i: Sym(S.uf("hist2", i)))
+    h3 = SymList(h1.length(), lambda i: Sym(S.uf("hist3", i)))
+    hl = h1.length()
+    opt = vc.obj(OPT, "GpOptimiser", x=x, y=y, y_err=y_err, kernel="kernel", mean="mean", cross_val=False, optimizer="bfgs",
+                 n_processes=1, acquisition=acq, acquisition_max_history=h1, convergence_metric_history=h2,
+                 iteration_history=h3, bounds=None)
+    new_x_before = new_x.copy()
+    vc.call(opt, "add_evaluation", new_x, new_y, new_err)
+    vc.unchanged("caller_new_x_unchanged", new_x, new_x_before)
+    new_x = new_x_before
+    X, Y = vc.attr(opt, "x"), vc.attr(opt, "y")
+    vc.ensures("one_more_row", vc.ndim(X) == 2 and S.cmp("==", X.shape[0], n + 1) and X.shape[1] == d
+               and vc.ndim(Y) == 1 and S.cmp("==", Y.shape[0], n + 1))
+    vc.ensures_forall("old_points_kept", (n, d), lambda i, c: S.cmp("==", X.at(i, c), x.at(i, c)))
+    vc.ensures_forall("old_values_kept", n, lambda i: S.cmp("==", Y.at(i), y.at(i)))
+    for c in range(d):
+        vc.ensures("new_point_appended", S.cmp("==", X.at(n, c), new_x.at(c)))
+    vc.ensures("new_value_appended", S.cmp("==", Y.at(n), new_y))
+    if has_err:
+        E = vc.attr(opt, "y_err")
+        vc.ensures_forall("old_errors_kept", n, lambda i: S.cmp("==", E.at(i), y_err.at(i)))
+        vc.ensures("new_error_appended", S.cmp("==", E.shape[0], n + 1) and S.cmp("==", E.at(n), new_err))
+    gp = vc.attr(opt, "gp")
+    vc.ensures("regressor_rebuilt_from_the_new_data", len(built) == 1 and built[0].get("x") is X and built[0].get("y") is Y
+               and built[0].get("y_err") is vc.attr(opt, "y_err") and built[0].get("kernel") == "kernel" and built[0].get("mean") == "mean")
+    vc.ensures("acquisition_receives_the_new_regressor", len(acq.updated) == 1 and acq.updated[0] is gp)
+    vc.ensures("histories_grow_by_one", S.And(S.cmp("==", vc.attr(opt, "acquisition_max_history").length(), hl + 1),
+                                             S.cmp("==", vc.attr(opt, "convergence_metric_history").length(), hl + 1),
+                                             S.cmp("==", vc.attr(opt, "iteration_history").length(), hl + 1)))
+    vc.ensures("iteration_number_recorded", S.cmp("==", vc.attr(opt, "iteration_history").at(hl), n + 1))
+    vc.ensures("caller_arrays_not_written", len(vc.writes_to_inputs()) == 0)
+
+
+@contract("C18", "update_gp", native=False, replay_with="propose_add_native")
+def update_gp(vc):
+    """update_gp installs the regressor and sets the incumbent to the largest observed value"""
+    n = vc.int("n", lo=1)
+    y = vc.vector("y", n)
+    acq = vc.new(ACQ, "UpperConfidenceBound")
+
+    class G:
+        def get_attr(self, I, name):
+            return y if name == "y" else getattr(self, name)
+
+    g = G()
+    vc.call(acq, "update_gp", g)
+    mx = vc.attr(acq, "mu_max")
+    vc.ensures("regressor_installed", vc.attr(acq, "gp") is g)
+    vc.ensures_forall("incumbent_is_an_upper_bound", n, lambda i: S.cmp(">=", mx, y.at(i)))
+    vc.ensures_exists("incumbent_is_attained", n, lambda i: S.cmp("==", mx, y.at(i)))
